@@ -1,6 +1,7 @@
 package props
 
 import (
+	"bytes"
 	"encoding/json"
 	"fmt"
 	"math"
@@ -26,7 +27,7 @@ func init() {
 	vx.Register(&vx.Prop{
 		ID:    "C17",
 		Level: "exploration",
-		Rule: "all 2^32 semicircle values for Latitude and for Longitude (validity, Semicircles, exact Degrees by integer arithmetic, NaN iff invalid, degree-constructor round trip) and all 2^32 FIT second counts (encode(decode(x))=x, Unix()=631065600+x, zero nanoseconds, IsBaseTime iff x=0); printed form on a stride plus boundary neighbourhoods (quick) or every value (thorough). " +
+		Rule: "all 2^32 semicircle values for Latitude and for Longitude (validity, Semicircles, exact Degrees by integer arithmetic, NaN iff invalid, degree-constructor round trip) and all 2^32 FIT second counts (encode(decode(x))=x, Unix()=631065600+x, zero nanoseconds, IsBaseTime iff x=0); printed form on a stride plus boundary neighbourhoods (quick) or every value (thorough). Through the decoder: position_lat / position_long / timestamp of record messages with the values k*2^16 and k*2^16+0xFFFF for every k and the neighbourhoods of the range ends, both byte orders, must decode to exactly what the constructors / conversion give. " +
 			"distinct = distinct outcome classes (type, validity, round-trip delta, sign, printed-error bucket)",
 		Assumptions: []string{"±90° is taken as legal for latitude (the statement says invalid when *outside* ±90°); the +90° case is the listed finding K5"},
 		Run:         runC17,
@@ -48,6 +49,12 @@ func init() {
 			case "time":
 				if msg := checkTime(uint32(r.Value)); msg != "" {
 					return "", fmt.Errorf("%s", msg)
+				}
+			case "decoded":
+				for _, big := range []bool{false, true} {
+					if msg := c17DecodedOne(uint32(r.Value), big); msg != "" {
+						return "", fmt.Errorf("%s", msg)
+					}
 				}
 			}
 			return "ok", nil
@@ -192,6 +199,7 @@ func absI64(a int64) int64 {
 
 func runC17(w *vx.W) {
 	thorough := !w.Quick()
+	c17Decoded(w)
 	// printed-form selection in the quick tier
 	near := func(s int64) bool {
 		for _, c := range []int64{0, 1 << 30, -(1 << 30), 1<<31 - 1, -(1 << 31), sentinel} {
@@ -297,4 +305,113 @@ func runC17(w *vx.W) {
 	if !thorough {
 		w.Note("printed form checked for s%257==0 and within 1024 of 0, ±2^30, ±2^31 and the sentinel (every value in thorough)")
 	}
+}
+
+// ---- through the decoder: the value types as Decode produces them (not only as the constructors do) ----
+// Values k*2^16 and k*2^16+0xFFFF for every k, plus the neighbourhoods of the range ends, in position_lat,
+// position_long and timestamp of record messages, both byte orders. Oracle: the decoded field is exactly what the
+// (exhaustively checked) constructor / conversion gives for the wire value.
+func c17Decoded(w *vx.W) {
+	var vals []uint32
+	for k := uint32(0); k < 1<<16; k++ {
+		vals = append(vals, k<<16, k<<16|0xFFFF)
+	}
+	for _, c := range []int64{0, 1 << 30, -(1 << 30), 1<<31 - 1, -(1 << 31), 1 << 29, -(1 << 29)} {
+		for d := int64(-3); d <= 3; d++ {
+			vals = append(vals, uint32(int32(c+d)))
+		}
+	}
+	const per = 2048
+	nfiles := (len(vals) + per - 1) / per
+	for fi := 0; fi < nfiles; fi++ {
+		if !w.Mine(int64(fi)) {
+			continue
+		}
+		chunk := vals[fi*per : minInt((fi+1)*per, len(vals))]
+		for o := 0; o < 2; o++ {
+			big := o == 1
+			d := fitmodel.Def{Local: 1, Big: big, Global: 20, Fields: []fitmodel.FieldDef{{Num: 253, Size: 4, Base: fitmodel.Uint32}, {Num: 0, Size: 4, Base: fitmodel.Sint32}, {Num: 1, Size: 4, Base: fitmodel.Sint32}}}
+			recs := append(fitmodel.FileIdRecords(0, 4), d.Bytes())
+			ord := d.Order()
+			for i, v := range chunk {
+				x := v ^ 0x5A5A0000 // a different value in the timestamp field
+				_ = i
+				p := fitmodel.Concat(fitmodel.PutUint(ord, 4, uint64(x)), fitmodel.PutUint(ord, 4, uint64(v)), fitmodel.PutUint(ord, 4, uint64(v)))
+				recs = append(recs, fitmodel.Data(1, p))
+			}
+			stream := fitmodel.File(fitmodel.DefaultHeader, recs...)
+			res := safeDecode(bytes.NewReader(stream))
+			w.Eval(int64(3 * len(chunk)))
+			w.Fam("decoded-values", int64(3*len(chunk)))
+			if res.Err != nil || res.Panic != "" {
+				w.Violation("decoded/decode-fails", fmt.Sprintf("Decode of records with boundary coordinates fails: err=%v panic=%s", res.Err, res.Panic), c17Replay{"decoded", int64(chunk[0])})
+				continue
+			}
+			a, _ := res.File.Activity()
+			if a == nil || len(a.Records) != len(chunk) {
+				w.Violation("decoded/count", "records lost", c17Replay{"decoded", int64(chunk[0])})
+				continue
+			}
+			for i, v := range chunk {
+				r := a.Records[i]
+				s := int32(v)
+				if wl := fit.NewLatitude(s); r.PositionLat != wl || r.PositionLat.Invalid() != wl.Invalid() {
+					w.Violation("decoded/lat", fmt.Sprintf("position_lat %d (big-endian=%v) decodes to {semicircles %d invalid %v}, NewLatitude gives {semicircles %d invalid %v}", s, big, r.PositionLat.Semicircles(), r.PositionLat.Invalid(), wl.Semicircles(), wl.Invalid()), c17Replay{"decoded", int64(s)})
+					break
+				}
+				if wg := fit.NewLongitude(s); r.PositionLong != wg {
+					w.Violation("decoded/lng", fmt.Sprintf("position_long %d (big-endian=%v) decodes to {semicircles %d invalid %v}, NewLongitude gives {semicircles %d invalid %v}", s, big, r.PositionLong.Semicircles(), r.PositionLong.Invalid(), wg.Semicircles(), wg.Invalid()), c17Replay{"decoded", int64(s)})
+					break
+				}
+				x := v ^ 0x5A5A0000
+				wt := fit.VerifDecodeDateTime(x)
+				if x == 0xFFFFFFFF {
+					wt = fitBase
+				}
+				if !r.Timestamp.Equal(wt) || r.Timestamp.Location() != time.UTC {
+					w.Violation("decoded/time", fmt.Sprintf("timestamp %d (big-endian=%v) decodes to %v, the conversion gives %v", x, big, r.Timestamp, wt), c17Replay{"decoded", int64(x)})
+					break
+				}
+			}
+		}
+	}
+}
+
+func minInt(a, b int) int {
+	if a < b {
+		return a
+	}
+	return b
+}
+
+// c17DecodedOne: one record carrying v in position_lat, position_long and (xor-ed) in timestamp.
+func c17DecodedOne(v uint32, big bool) string {
+	d := fitmodel.Def{Local: 1, Big: big, Global: 20, Fields: []fitmodel.FieldDef{{Num: 253, Size: 4, Base: fitmodel.Uint32}, {Num: 0, Size: 4, Base: fitmodel.Sint32}, {Num: 1, Size: 4, Base: fitmodel.Sint32}}}
+	ord := d.Order()
+	p := fitmodel.Concat(fitmodel.PutUint(ord, 4, uint64(v)), fitmodel.PutUint(ord, 4, uint64(v)), fitmodel.PutUint(ord, 4, uint64(v)))
+	stream := fitmodel.File(fitmodel.DefaultHeader, append(fitmodel.FileIdRecords(0, 4), d.Bytes(), fitmodel.Data(1, p))...)
+	res := safeDecode(bytes.NewReader(stream))
+	if res.Err != nil || res.Panic != "" {
+		return fmt.Sprintf("decode fails: %v %s", res.Err, res.Panic)
+	}
+	a, _ := res.File.Activity()
+	if a == nil || len(a.Records) != 1 {
+		return "record lost"
+	}
+	r := a.Records[0]
+	s := int32(v)
+	if wl := fit.NewLatitude(s); r.PositionLat != wl {
+		return fmt.Sprintf("position_lat %d (big-endian=%v) decodes to {semicircles %d invalid %v}, NewLatitude gives {semicircles %d invalid %v}", s, big, r.PositionLat.Semicircles(), r.PositionLat.Invalid(), wl.Semicircles(), wl.Invalid())
+	}
+	if wg := fit.NewLongitude(s); r.PositionLong != wg {
+		return fmt.Sprintf("position_long %d (big-endian=%v) decodes to {semicircles %d invalid %v}, NewLongitude gives {semicircles %d invalid %v}", s, big, r.PositionLong.Semicircles(), r.PositionLong.Invalid(), wg.Semicircles(), wg.Invalid())
+	}
+	wt := fit.VerifDecodeDateTime(v)
+	if v == 0xFFFFFFFF {
+		wt = fitBase
+	}
+	if !r.Timestamp.Equal(wt) {
+		return fmt.Sprintf("timestamp %d (big-endian=%v) decodes to %v, the conversion gives %v", v, big, r.Timestamp, wt)
+	}
+	return ""
 }
